@@ -797,15 +797,31 @@ def _parse_cpu(data):
     """CPU seconds (process time, best of two) of one parse attempt, whatever its outcome."""
     import time
     from suit_generator.suit.envelope import SuitEnvelopeTagged
+    import signal
+
+    class _Hang(BaseException):
+        pass
+
+    def _alarm(signum, frame):
+        raise _Hang()
     best = None
-    for _ in range(2):
-        t0 = time.process_time()
-        try:
-            SuitEnvelopeTagged.from_cbor(data).to_obj()
-        except BaseException:  # noqa: BLE001  (outcome kinds are the business of the other clauses)
-            pass
-        dt = time.process_time() - t0
-        best = dt if best is None or dt < best else best
+    old_handler = signal.signal(signal.SIGALRM, _alarm)
+    try:
+        for _ in range(2):
+            t0 = time.process_time()
+            signal.alarm(20)  # far beyond anything proportional to these inputs (the largest costs a few seconds at most)
+            try:
+                SuitEnvelopeTagged.from_cbor(data).to_obj()
+            except _Hang:
+                return float("inf")
+            except BaseException:  # noqa: BLE001  (outcome kinds are the business of the other clauses)
+                pass
+            finally:
+                signal.alarm(0)
+            dt = time.process_time() - t0
+            best = dt if best is None or dt < best else best
+    finally:
+        signal.signal(signal.SIGALRM, old_handler)
     return best
 
 
@@ -842,6 +858,11 @@ def _scaling_probe(B, name, data, max_nodes):
                 small = None
                 break
             t1 = _parse_cpu(small)
+            if t1 == float("inf"):
+                B.case((name, "scaling", kind, str(path)))
+                B.fail("parse-time-proportional-to-input-size", {"kind": "scaling", "envelope": name, "container": kind, "path": str(path), "items": [n], "input_bytes": [len(small)]},
+                       f"no result within 20 s for {len(small)} input bytes ({n} items in this container): the parser hangs")
+                return "hang"  # one hanging input is the finding; further probes would each wait for the alarm again
             if t1 >= 0.05:
                 break
             n *= 2
@@ -850,6 +871,10 @@ def _scaling_probe(B, name, data, max_nodes):
         big = build(4 * n)
         t4 = _parse_cpu(big)
         B.case((name, "scaling", kind, str(path)))
+        if t4 == float("inf"):
+            B.fail("parse-time-proportional-to-input-size", {"kind": "scaling", "envelope": name, "container": kind, "path": str(path), "items": [n, 4 * n], "input_bytes": [len(small), len(big)]},
+                   f"{t1:.2f} s CPU for {len(small)} bytes but no result within 20 s for {len(big)} bytes")
+            return "hang"
         if t4 > 10 * t1:
             t4b, t1b = _parse_cpu(big), _parse_cpu(small)  # measured again before it is reported
             if t4b > 10 * t1b:
@@ -939,7 +964,10 @@ def bounded(ctx):
             B.fail("length-inflation-memory-bounded", {"kind": "bytes", "hex": inflated[i].hex() if i >= 0 else "", "envelope": name}, why)
     # quick: the first sample envelope and the largest one (most containers), every array node of each
     for name, data in ([envs[0], max(envs, key=lambda e: len(e[1]))] if quick else envs):
-        _scaling_probe(B, name, data, 120 if quick else 400)
+        if B.failures or B.out_of_time():
+            break  # a violation is reported already / the budget is used up: the probe (seconds of CPU per container) adds nothing
+        if _scaling_probe(B, name, data, 120 if quick else 400) == "hang":
+            break
     for depth in ((10, 50, 90, 200, 600) if quick else (10, 50, 90, 120, 200, 400, 600, 1000)):
         B.case(("nest", depth))
         msg = parse_cleanly(_nested_run_sequence(depth))
